@@ -5,6 +5,7 @@ import (
 	"os"
 	"path/filepath"
 	"regexp"
+	"runtime"
 	"sort"
 	"strings"
 	"sync"
@@ -292,6 +293,44 @@ func runC17(res *Result, d *Driver, tier string, seed uint64) {
 	sort.Strings(ks)
 	if len(ks) > 0 {
 		res.Sample(ks[0])
+	}
+	// an environment built on an OS thread on which a ptrace run is made afterwards, by a goroutine that then ends: the
+	// environment (whose init asks to die with the thread that forked it) must still serve
+	{
+		nb := 3
+		if tier == "thorough" {
+			nb = 30
+		}
+		for i := 0; i < nb; i++ {
+			var env *Env
+			var rp runner.Result
+			done := make(chan struct{})
+			go func() {
+				defer close(done)
+				runtime.LockOSThread()
+				defer runtime.UnlockOSThread() // balanced: the thread goes back to the scheduler when this goroutine ends
+				e, err := newEnv(container.Builder{})
+				if err != nil {
+					return
+				}
+				env = e
+				rp, _ = runPtraceProbe(RunSpec{Script: "exit 7", Filter: tracingFilter()})
+			}()
+			<-done
+			if env == nil {
+				continue
+			}
+			runtime.GC()
+			time.Sleep(20 * time.Millisecond)
+			r2, _ := env.runProbe(RunSpec{Script: "exit 7"}, false)
+			res.Case("env-and-ptrace-on-one-thread "+itoa(i), true, "thread-shared")
+			res.Traces++
+			if rp.Status != runner.StatusNonzeroExitStatus || rp.ExitStatus != 7 || r2.Status != runner.StatusNonzeroExitStatus || r2.ExitStatus != 7 {
+				res.Mismatch(Mismatch{Kind: "oracle", What: "a ptrace run on the thread that built a container environment does not take the environment down with it (C17: no run receives another's signals)", Input: "goroutine (thread pinned, balanced Lock/Unlock): build environment; ptrace run of `exit 7`; goroutine ends; then `exit 7` in the environment",
+					Impl: fmt.Sprintf("ptrace run: %v %d %q; environment afterwards: %v %d %q", rp.Status, rp.ExitStatus, rp.Error, r2.Status, r2.ExitStatus, r2.Error), Model: "Nonzero Exit Status 7 twice", Oracle: "violates"})
+			}
+			env.Close()
+		}
 	}
 	// two callers on ONE environment, the second call issued while the first run is being torn down (its descendant is
 	// large and slow to die): the second run's result is its own
